@@ -763,18 +763,23 @@ def shape_ind(tier, seed):
     """Apalache: the shape part of the storage invariant is inductive for UNBOUNDED inline capacity / size / capacity
     (spec/ShapeInd.tla).  Design level only; a failure is an error of the model, reported as internal error."""
     src = os.path.join(P.SPEC, 'ShapeInd.tla')
-    wd = os.path.join(P.CACHE, 'apalache', P.sha('shapeind', P.file_sha(src), P.file_sha(os.path.join(P.SPEC, 'ShapeProof.tla'))))
+    rel = os.path.join(P.SPEC, 'ShapeRel.tla')
+    wd = os.path.join(P.CACHE, 'apalache', P.sha('shapeind2', P.file_sha(src), P.file_sha(rel), P.file_sha(os.path.join(P.SPEC, 'ShapeProof.tla'))))
     okf = os.path.join(wd, 'ok')
     with P.Lock(wd):
         if not os.path.exists(okf):
             os.makedirs(wd, exist_ok=True)
             shutil.copy(src, os.path.join(wd, 'ShapeInd.tla'))
-            for (init, length) in (('Init', 0), ('IndInit', 1)):
-                p = subprocess.run(['apalache-mc', 'check', '--cinit=ConstInit', '--init=' + init, '--inv=Inv', '--length=%d' % length,
+            shutil.copy(rel, os.path.join(wd, 'ShapeRel.tla'))
+            # base case; inductive step under the quantified relation; inductive step under the closed form (ShapeRel, the one
+            # transitions of the model checker and of the real code are validated against); Next is contained in the closed form
+            for (init, nxt, inv, length) in (('Init', 'Next', 'Inv', 0), ('IndInit', 'Next', 'Inv', 1), ('IndInit', 'NextClosedA', 'Inv', 1),
+                                             ('IndInit', 'Next', 'NextInClosed', 1)):
+                p = subprocess.run(['apalache-mc', 'check', '--cinit=ConstInit', '--init=' + init, '--next=' + nxt, '--inv=' + inv, '--length=%d' % length,
                                     '--out-dir=' + os.path.join(wd, 'out'), 'ShapeInd.tla'], cwd=wd, stdout=subprocess.PIPE, stderr=subprocess.STDOUT, timeout=900)
                 out = p.stdout.decode('utf-8', 'replace')
                 if 'The outcome is: NoError' not in out:
-                    raise RuntimeError('Apalache: ShapeInd %s step failed:\n%s' % (init, out[-2000:]))
+                    raise RuntimeError('Apalache: ShapeInd %s / %s / %s failed:\n%s' % (init, nxt, inv, out[-2000:]))
             shutil.rmtree(os.path.join(wd, 'out'), ignore_errors=True)
             # the same statement as a machine-checked proof (TLAPS): Spec => []Inv
             shutil.copy(os.path.join(P.SPEC, 'ShapeProof.tla'), os.path.join(wd, 'ShapeProof.tla'))
@@ -789,7 +794,7 @@ def shape_ind(tier, seed):
     return dict(lines=0, ops=0, restarts=0, skipped=0, sample=[], sigs={}, nlines={}, violations=[], stims=0, stims_total=0, mc=None,
                 drv='ShapeInd', drvconf=None, fmode=0,
                 label='design level (Apalache, spec/ShapeInd.tla): Init => Inv and Inv /\\ Next => Inv\' for unbounded N, size, capacity',
-                coverage_extra=dict(apalache_inductive_invariant='ShapeInd.Inv: base and inductive step discharged (unbounded integers)',
+                coverage_extra=dict(apalache_inductive_invariant='ShapeInd.Inv: base and inductive step discharged (unbounded integers), also under the closed-form relation ShapeRel.StepClosed, which contains Next and which SVecMC asserts on every transition and ImplTrace evaluates on every recorded call',
                                     tlaps_proof='spec/ShapeProof.tla: Spec => []Inv, %d obligations, all proved by tlapm' % nobl, tlaps_obligations=nobl, tlaps_discharged=nobl))
 
 
